@@ -185,7 +185,7 @@ Proof.
 Qed.
 
 (* ---------------------------------------------------------------- the sub-steps *)
-Lemma InvK_env calls s a s' : InvK s -> step_env calls s a = Some s' -> InvK s'.
+Lemma InvK_env calls s a s' : InvK s -> step_env fixed calls s a = Some s' -> InvK s'.
 Proof.
   intros HI H. unfold step_env in H. destruct a as [i|id x e| |n|f arg| |n|c|which n].
   - (* EStart *)
@@ -205,7 +205,12 @@ Proof.
       unfold take_fault in E1; inversion E1; subst; exact T0.
     + assert (H1 : InvK s1) by (eapply InvK_take_fault; eauto).
       assert (T1 : tget (threads s1) (TCall i) = None) by (unfold take_fault in E1; inversion E1; subst; exact T0).
-      destruct (bclosed s1) eqn:Eb; inversion H; subst; [apply Panic; auto|].
+      destruct (bclosed s1) eqn:Eb; inversion H; subst.
+      { (* the link has already ended: the call returns at once *)
+        destruct H1 as [g1 g2]. unfold caller_return. constructor.
+        - simpl. congruence.
+        - intros j Hj. unfold setT in *; simpl in *. rewrite tget_tset_other in Hj by discriminate. rewrite tget_tset.
+          destruct (tname_eqb (TCall j) (TCall i)) eqn:E; [split; [discriminate|reflexivity]|apply g2; auto]. }
       destruct H1 as [g1 g2]. constructor.
       * intros _ j ent Hw. unfold waits_on in Hw. simpl in *. rewrite tget_tset_other in Hw by discriminate. rewrite tget_tset in Hw.
         destruct (Nat.eq_dec j i) as [->|Hne].
